@@ -57,6 +57,12 @@ def angles(tier):
     return out
 
 
+def _near_miss(a):
+    """within 1e-8 of a multiple of pi/4 without being one (to 1e-12)"""
+    k = a / (PI / 4)
+    return 1e-12 < abs(k - round(k)) * (PI / 4) < 1e-8
+
+
 def eps_menu(tier):
     return [1e-1, 1e-2, 1e-3] if tier == "quick" else [1e-1, 1e-2, 1e-3, 1e-4, 1e-5, 1e-6]
 
@@ -272,7 +278,8 @@ def run(ctx):
     tier, q, only = ctx.tier, ctx.quick, ctx.only
     A, E = angles(tier), eps_menu(tier)
     if only in (None, "rs"):
-        specs = [{"k": "rs", "gate": g, "angle": a, "eps": e} for g in ("RZ", "PhaseShift") for a in A for e in E]
+        specs = [{"k": "rs", "gate": g, "angle": a, "eps": e} for g in ("RZ", "PhaseShift") for a in A for e in E
+                 if not (e < 1e-5 and _near_miss(a))]  # near misses of k*pi/4 at eps=1e-6 take minutes each (grid search), same code path
         specs += [{"k": "rs", "gate": "RZ", "angle": a, "eps": 1e-2, "wire": w} for a in (G1, PI / 4, -2 * PI + 1e-3) for w in ("a", 3)]
         ctx.enumerate(specs, fn="check_rs", axis="rs_decomposition", chunk=4)
         ctx.enumerate([{"k": "rj", "op": o} for o in ("RX", "Rot", "CRZ", "T")], fn="check_rs_reject", axis="rs_reject", parallel=False)
